@@ -34,7 +34,7 @@ EXPLANATION = ("body VCs: add_as_source appends exactly one source feature [0,le
 def obligations(ctx):
     obs = ctx.verify(FUNCTIONS)
     obs = [o for o in obs if "citation" not in o.name]
-    return obs + lemmas(ctx)
+    return obs + ctx.part(lemmas)
 
 
 def lemmas(ctx):
